@@ -102,7 +102,7 @@ func retryAtoms() []*expr {
 	}
 	out = append(out, &expr{kind: "atom", fn: "neterr"})
 	for _, c := range []string{"==", "!="} {
-		for _, m := range []string{"GET", "POST"} {
+		for _, m := range []string{"GET", "POST", "get"} {
 			out = append(out, &expr{kind: "atom", fn: "method", cmp: c, sval: m})
 		}
 	}
@@ -466,7 +466,7 @@ func RunC07(tier string, sh lib.Shard, rep *lib.Report) {
 	rep.Bounds["programs"] = len(progs) + 1
 	rep.Bounds["status_sequences"] = len(seqs)
 	rep.Bounds["response_shapes"] = len(shs)
-	rep.Rule = "(a) every generated retry expression (all 59 atoms; covering selection of 1- and 2-connective compounds, with/without parentheses; plus 'no retry option') x method {GET,POST} x 31 per-attempt status sequences, run on the real buffer and compared with a reference evaluator (expected invocations = min(11, first attempt whose predicate is false)) and with the final attempt's marker; (b) every response shape status x header set x body chunking, with and without a discarded first attempt, through a real loopback server and a raw TCP client that must read exactly one well-formed response; non-trivial = programs that retried + shapes after a discarded attempt"
+	rep.Rule = "(a) every generated retry expression (all 61 atoms; covering selection of 1- and 2-connective compounds, with/without parentheses; plus 'no retry option') x method {GET,POST; and get,Post,PATCH for programs that read the method} x 31 per-attempt status sequences, run on the real buffer and compared with a reference evaluator (expected invocations = min(11, first attempt whose predicate is false)) and with the final attempt's marker; (b) every response shape status x header set x body chunking, with and without a discarded first attempt, through a real loopback server and a raw TCP client that must read exactly one well-formed response; non-trivial = programs that retried + shapes after a discarded attempt"
 	rep.Assume("an attempt without explicit status may be read as code 0 or 200 by the retry expression (either count accepted)")
 	rep.Require("programs_that_retried", "programs_hitting_the_cap", "shapes_after_a_discarded_attempt", "shapes_with_implicit_status", "shapes_with_empty_body")
 	all := append([]*expr{nil}, progs...)
@@ -478,7 +478,13 @@ func RunC07(tier string, sh lib.Shard, rep *lib.Report) {
 			rep.Exhaustive = false
 			break
 		}
-		for _, m := range []string{"GET", "POST"} {
+		ms := []string{"GET", "POST"}
+		if p != nil && strings.Contains(p.String(), "RequestMethod") {
+			// methods are case-sensitive tokens: "get" and "Post" are legal methods that equal neither "GET" nor "POST"
+			ms = append(ms, "get", "Post", "PATCH")
+			rep.Count("programs_run_with_case_variant_methods")
+		}
+		for _, m := range ms {
 			for _, seq := range seqs {
 				runProgram(p, m, seq, rep)
 			}
